@@ -9,7 +9,7 @@ func init() {
 		NotDecided: "equality of the stored row set with the input row set, key order, de-duplication correctness, export fidelity (value-dependent).",
 	}
 	props["C06"] = &propSpec{
-		Rules:      []string{"C06-a", "C06-b", "C06-c", "C06-d", "C17-f", "C16-g"},
+		Rules:      []string{"C06-a", "C06-b", "C06-c", "C06-d", "C17-f", "C16-g", "C06-f"},
 		Decides:    "Decides structural necessary conditions of 'objects round-trip and are stored under their hash': every content-addressed store in pkg/objects uses meow.Checksum of a parameter as key and stores that parameter, its s2 encoding, or (SaveCompressedBlock) a second parameter that every caller pairs with its decompression; raw Store.Set/Delete/Clear only inside pkg/objects; every uint16(len(.)) in the labelled-field and row encoders is dominated by a len <= 65535 test whose failing edge returns an error; the ordered label lists of each object's writer and reader agree. Does not decide decode(encode(x)) = x nor the varint header arithmetic.",
 		NotDecided: "decode(encode(x)) = x for all x; the packfile varint header arithmetic.",
 	}
@@ -24,7 +24,7 @@ func init() {
 		NotDecided: "repeatability of the operation after a crash; effects of a crash inside a multi-branch pull; atomicity of the underlying stores (trusted).",
 	}
 	props["C10"] = &propSpec{
-		Rules:      []string{"C10-a", "C10-b", "C10-c", "C10-d", "C10-e", "C10-f", "C10-g", "C10-h"},
+		Rules:      []string{"C10-a", "C10-b", "C10-c", "C10-d", "C10-e", "C10-f", "C10-g", "C10-h", "C10-i"},
 		Decides:    "Decides that every ref-update site in fetch and push is unreachable once the fast-forward / force / new-ref / delete permit edges are removed, that existing tags additionally need a force permit, that unlogged ref writes are confined to tags and transaction refs, that the reflog's old value is read inside the SQL transaction that updates the ref, and that merge writes refs only after the merge base was computed. Does not decide IsAncestorOf's correctness (C11), merge's fast-forward condition, pull's new-branch detection or the remote side of push. Also decided: force permits are tests of the flag itself (not of a loop-carried accumulation); the fast-forward ref write takes the single input that differs from the merge base.",
 		NotDecided: "that IsAncestorOf answers correctly (C11); merge's fast-forward condition (control-dependent on SeekCommonAncestor); pull's new-branch detection; the remote side of push.",
 	}
@@ -39,7 +39,7 @@ func init() {
 		NotDecided: "that the marked set equals the reachable set for every repository (graph-valued).",
 	}
 	props["C14"] = &propSpec{
-		Rules:      []string{"C14-a", "C14-b", "C14-c", "C13-g", "C10-d", "C15-c"},
+		Rules:      []string{"C14-a", "C14-b", "C14-c", "C13-g", "C10-d", "C15-c", "C14-d", "C14-e"},
 		Decides:    "Decides that Commit and Discard test Transaction.Status before any ref/transaction mutation with an outcome that avoids the mutations; that Commit's per-branch ref update is reachable only through the not-yet-logged edge of a GetTransactionLogs lookup (re-run completes without duplicating commits); that no branch mutation is reachable from Discard. Does not decide the outcome of every crash point or the atomicity of a single run. Also decided: the already-moved lookup is keyed by the same ref name the update is logged under; the per-branch update runs as one SQL transaction that reads the old value itself.",
 		NotDecided: "the outcome of every crash point; log contents; atomicity of a single run (the per-branch loop is not one store transaction).",
 	}
@@ -54,7 +54,7 @@ func init() {
 		NotDecided: "termination, deadlock freedom, equality with the sequential result, absence of every race (no may-happen-in-parallel analysis for main-vs-goroutine pairs).",
 	}
 	props["C18"] = &propSpec{
-		Rules:      []string{"C18-a", "C16-g"},
+		Rules:      []string{"C18-a", "C16-g", "C18-b"},
 		Decides:    "Decides a sufficient shape for chunk-independence of the byte stream decoders see: in pkg/encoding/..., pkg/objects, pkg/api/client and pkg/api/utils every direct Read call is inside a delegating Read method or inside a loop that accumulates the byte count and consumes n before any successful exit; all other reads go through io.ReadFull/ReadAtLeast/ReadAll/Copy. Its negation is a defect for iotest.OneByteReader/DataErrReader-like transports. Does not decide equality of decoded sequences under every partition. An accumulating read loop may not exit on a plain iteration counter.",
 		NotDecided: "equality of the decoded object sequences under every partition of the stream (behavioural); readers handed to third-party decoders (gzip, json).",
 	}
@@ -74,7 +74,7 @@ func init() {
 		NotDecided: "the cell-wise resolution rules, conflict marking, commutativity, keyless tables and renamed columns (value-dependent).",
 	}
 	props["C08"] = &propSpec{
-		Rules:      []string{"C08-a", "C08-b", "C08-c", "C08-d"},
+		Rules:      []string{"C08-a", "C08-b", "C08-c", "C08-d", "C08-e", "C11-a"},
 		Decides:    "Decides one clause of the property only: a caller-supplied hash is stored into the Wants map only after the reachability check (the function that builds *UnrecognizedWantsError) succeeded, and that check walks from an unfiltered listing of all refs. Closedness, parent-first order, minimality, depth selection and polynomial termination are statements about DAG values and are not decided. Level 'other', explicitly thin.",
 		NotDecided: "closedness, parent-first order, minimality, depth selection, polynomial termination — all statements about DAG values.",
 	}
